@@ -275,6 +275,80 @@ class C07(Prop):
             cases.append(Case('rvec %s %s %d %s' % (tk, rnd.choice(['incl', 'excl']), m, ' '.join(prs + sur)), 'rvec'))
             cases.append(Case('rvecb %s %d %s %d %s' % (tk, rnd.choice([0, 1]), rnd.choice(['incl', 'excl']), m, ' '.join(prs + sur)), 'rvecb'))
         cases.append(Case('pinr 0 %s' % enc(1.0), 'pinr'))
+        # ---- caller-supplied-axis cores, operator[], and the remaining overloads of util::positionToIndex
+        for _ in range(25 if quick else 250 * scale):
+            dt = rnd.choice(INTERVALS[:8]); off = rnd.choice([None, 0.3, -0.3, 5.0]); o = off or 0.0
+            hd = '%s %s' % (enc(dt), enc(off) if off is not None else '-')
+            def spos():
+                i = rnd.randrange(0, 3000)
+                return rnd.choice([i * dt + o, ulp_next(i * dt + o, rnd.choice([-1, 1])), (i + 0.5) * dt + o, o - dt])
+            a, b = spos(), spos()
+            if rnd.random() < 0.8:
+                a, b = min(a, b), max(a, b)
+            cases.append(Case('core s %s %s %s %s' % (hd, enc(a), enc(b), rnd.choice(['incl', 'excl'])), 'core-s'))
+            cases.append(Case('opidx s %s %d' % (hd, rnd.choice([0, 1, 7, 9999])), 'opidx'))
+            ipos = lambda: rnd.choice([0.0, 1.0, 2.0, 2.5, 3.0, 4.0, 4.5, -1.0, 7.0])
+            a, b = ipos(), ipos()
+            cases.append(Case('core set %d %d %s %s %s' % (rnd.choice([0, 0, 2, 5]), rnd.choice([0, 3, 6]), enc(a), enc(b), rnd.choice(['incl', 'excl'])), 'core-set'))
+            cases.append(Case('core df %d %d %s %s %s' % (rnd.choice([0, 2, 5]), rnd.choice([0, 3, 6]), enc(a), enc(b), rnd.choice(['incl', 'excl'])), 'core-df'))
+            k = rnd.choice([0, 1, 2, 3, 5])
+            t = sorted(set(rnd.choice([float(rnd.randrange(-5, 30)), rnd.uniform(-5, 30)]) for _ in range(k)))
+            tt = t if t else [1000.0, 2000.0]
+            def rpos():
+                x = rnd.choice(tt)
+                return rnd.choice([x, ulp_next(x, 1), ulp_next(x, -1), x + 0.5, tt[0] - 1.0, tt[-1] + 1.0])
+            a, b = rpos(), rpos()
+            if rnd.random() < 0.8:
+                a, b = min(a, b), max(a, b)
+            cases.append(Case('core r %d %s %s %s %s' % (len(t), ' '.join(enc(x) for x in t), enc(a), enc(b), rnd.choice(['incl', 'excl'])), 'core-r'))
+            if t:
+                cases.append(Case('opidx r %d %s %d' % (len(t), ' '.join(enc(x) for x in t), rnd.choice([0, len(t) - 1, len(t)])), 'opidx'))
+            n = rnd.choice([0, 1, 3, 5])
+            cases.append(Case('uset %d %s %s' % (n, enc(ipos()), rnd.choice(RULES)), 'uset'))
+            cases.append(Case('udf %d %s %s' % (n, enc(ipos()), rnd.choice(RULES)), 'udf'))
+            for kind in ('usetvec', 'udfvec'):
+                m = rnd.choice([0, 1, 3])
+                prs = []
+                for _i in range(m):
+                    prs += [enc(ipos()), enc(ipos())]
+                sur = [enc(1.0)] if rnd.random() < 0.1 else []
+                cases.append(Case('%s %d %s %d %s' % (kind, n, rnd.choice(['incl', 'excl']), m, ' '.join(prs + sur)), kind))
+            cases.append(Case('udep set %d %s %s' % (n, enc(ipos()), rnd.choice(['none', 's', 'foo'])), 'udep-set'))
+            m = rnd.choice([1, 2, 3])
+            trip = []
+            for _i in range(m):
+                a, b = ipos(), ipos()
+                if rnd.random() < 0.8:
+                    a, b = min(a, b), max(a, b)
+                trip += [enc(a), enc(b), rnd.choice(['none', 's'])]
+            cases.append(Case('udepvec set %d %d %s' % (n, m, ' '.join(trip)), 'udepvec-set'))
+            # deprecated unit-carrying overloads on sampled / range dimensions
+            UV = {'s': 1.0, 'ms': 1e-3, 'us': 1e-6, 'ks': 1e3}
+            du = rnd.choice(list(UV) + ['-'])
+            u = rnd.choice(list(UV) + ['none', 'Hz'])
+            def conv(x, u):
+                return x if u == 'none' or du == '-' or u not in UV else x * UV[du] / UV[u]
+            cases.append(Case('udep s %s %s %s %s' % (hd, du, enc(conv(spos(), u)), u), 'udep-s'))
+            if t:
+                cases.append(Case('udep r %d %s %s %s %s' % (len(t), ' '.join(enc(x) for x in t), du, enc(conv(rpos(), u)), u), 'udep-r'))
+            m = rnd.choice([1, 2, 3])
+            trip = []
+            for _i in range(m):
+                uu = rnd.choice(list(UV) + ['none'])
+                a, b = spos(), spos()
+                if rnd.random() < 0.85:
+                    a, b = min(a, b), max(a, b)
+                trip += [enc(conv(a, uu)), enc(conv(b, uu)), uu]
+            cases.append(Case('udepvec s %s %s %d %s' % (hd, du, m, ' '.join(trip)), 'udepvec-s'))
+            if t:
+                trip = []
+                for _i in range(m):
+                    uu = rnd.choice(list(UV) + ['none'])
+                    a, b = rpos(), rpos()
+                    if rnd.random() < 0.85:
+                        a, b = min(a, b), max(a, b)
+                    trip += [enc(conv(a, uu)), enc(conv(b, uu)), uu]
+                cases.append(Case('udepvec r %d %s %s %d %s' % (len(t), ' '.join(enc(x) for x in t), du, m, ' '.join(trip)), 'udepvec-r'))
         # ---- the axis the indices must be consistent with: axis(count, start)[i] = x_(start+i), tickAt(i) = tick i
         for _ in range(20 if quick else 200 * scale):
             dt = rnd.choice(INTERVALS); off = rnd.choice([None, 0.3, -0.3, 5.0])
